@@ -321,6 +321,40 @@ def explore_enc(item):
             else:
                 rep.add("nontrivial", (oi, tuple(plan)))
             rep.add("states_enc", v)
+    # batches: two candles in ONE append, every pair of row encodings (lists with leading / trailing timestamp, dicts, Candles)
+    def row(r, kind):
+        o, h, l, c, v, iso = r
+        ts = datetime.fromisoformat(iso)
+        return {"lead": [ts, o, h, l, c, v], "trail": [o, h, l, c, v, ts], "dict": {"open": o, "high": h, "low": l, "close": c, "volume": v, "timestamp": ts},
+                "Dict": {"Open": o, "High": h, "Low": l, "Close": c, "Volume": v, "Timestamp": ts}, "candle": fresh([r])[0]}[kind]
+
+    homog = {"lead": "list", "trail": "list", "dict": "dict", "Dict": "dict", "candle": "candle"}
+    for k1 in ("lead", "trail", "dict", "Dict", "candle"):
+        for k2 in ("lead", "trail", "dict", "Dict", "candle"):
+            if homog[k1] != homog[k2]:
+                continue  # append dispatches on the first element's type: a batch is a list of one kind of thing
+            try:
+                obj, _ = build(objspec, raw, "empty")
+                batch = [row(raw[0], k1), row(raw[1], k2)]
+                keep = copy.deepcopy(batch) if homog[k1] != "candle" else None
+                obj.append(batch)
+                if keep is not None and batch != keep:
+                    rep.violation(f"C19|caller-container-mutated|{objspec[0]}|batch-{homog[k1]}",
+                                  {"obj": objspec, "word": word, "plan": ["batch", k1, k2, n], "oracle": "container", "at": 0})
+                for i in range(2, n):
+                    obj.append(fresh([raw[i]])[0])
+                v = view(obj)
+            except Exception as e:
+                rep.inc("executions")
+                rep.violation(f"C19|encoding-raised|{objspec[0]}|{type(e).__name__}",
+                              {"obj": objspec, "word": word, "plan": ["batch", k1, k2, n], "oracle": "enc-raised", "error": repr(e)})
+                continue
+            rep.inc("executions")
+            rep.inc("transitions", n - 1)
+            if v != base:
+                rep.violation(f"C19|encoding-differs|{objspec[0]}|batch-{k1}+{k2}", {"obj": objspec, "word": word, "plan": ["batch", k1, k2, n], "oracle": "encoding"})
+            else:
+                rep.add("nontrivial", (oi, "batch", k1, k2))
     rep.sample({"object": objspec, "encodings": encs, "stream": word})
     return rep
 
@@ -359,6 +393,28 @@ def replay(case):
         return observe(obj, accs) != observe(ref, accs)
     # encoding cases
     encs = [e[0] for e in encodings(raw[0])]
+    if case["plan"] and case["plan"][0] == "batch":
+        def row(r, kind):
+            o, h, l, c, v, iso = r
+            ts = datetime.fromisoformat(iso)
+            return {"lead": [ts, o, h, l, c, v], "trail": [o, h, l, c, v, ts], "dict": {"open": o, "high": h, "low": l, "close": c, "volume": v, "timestamp": ts},
+                    "Dict": {"Open": o, "High": h, "Low": l, "Close": c, "Volume": v, "Timestamp": ts}, "candle": fresh([r])[0]}[kind]
+        n = case["plan"][3] if len(case["plan"]) > 3 else 4
+        try:
+            ref, _ = build(objspec, raw, "empty")
+            for i in range(n):
+                ref.append(fresh([raw[i]])[0])
+            obj, _ = build(objspec, raw, "empty")
+            batch = [row(raw[0], case["plan"][1]), row(raw[1], case["plan"][2])]
+            keep = copy.deepcopy(batch) if case["plan"][1] != "candle" else None
+            obj.append(batch)
+            if keep is not None and batch != keep:
+                return True
+            for i in range(2, n):
+                obj.append(fresh([raw[i]])[0])
+            return view(obj) != view(ref)
+        except Exception:
+            return True
     plan = [encs.index(p) for p in case["plan"]]
     try:
         ref, _ = build(objspec, raw, "empty")
